@@ -130,3 +130,16 @@ package ratelimit
 //@   requires forall i int, j int :: 0 <= i && i <= j && j < k ==> log[i] <= log[j]
 //@   ensures (ts - log[k - n] <= ivl) == (forall j int :: k - n <= j && j < k ==> ts - log[j] <= ivl)
 //@   ensures k > n && ts - log[k - n] > ivl ==> (forall j int :: 0 <= j && j <= k - n ==> ts - log[j] > ivl)
+
+// ---------------------------------------------------------------------------
+// C20: what the limiter's constructor needs from its configuration so that
+// no query can make it panic or divide by zero.
+
+//@ pred BackoffPre(c *BackoffConfig) = c != nil && c.Allowlist != nil && c.ResponseSizeEstimate > 0 &&
+//@      0 <= c.IPv4SubnetKeyLen && c.IPv4SubnetKeyLen <= 32 && 0 <= c.IPv6SubnetKeyLen && c.IPv6SubnetKeyLen <= 128 &&
+//@      c.IPv4Count < 9223372036854775807 && c.IPv6Count < 9223372036854775807
+
+//@ func NewBackoff
+//@   property C20
+//@   requires BackoffPre(c)
+//@   ensures BO(l) && l.respSzEst > 0 && fresh(l)
